@@ -277,6 +277,13 @@ func (e *Engine) unop(st *State, in *ssa.UnOp, v Value) []Outcome {
 		if ptr.IsNil() {
 			return []Outcome{e.panicOut(st, "invalid memory address or nil pointer dereference")}
 		}
+		if ptr.Sym != nil && !e.symLoadMergeable(st, ptr) {
+			var outs []Outcome
+			for _, c := range e.concPtr(st, ptr) {
+				outs = append(outs, Outcome{st: c.st, ret: e.load(c.st, c.p)})
+			}
+			return outs
+		}
 		return one(st, e.load(st, ptr))
 	case token.ARROW:
 		panic(e.abort("channel receive not supported"))
@@ -722,3 +729,22 @@ func (e *Engine) nextOp(st *State, iv *IterV, in *ssa.Next) []Outcome {
 }
 
 var _ = math.Inf
+
+// symLoadMergeable reports whether all candidate elements of a symbolic-index load can be combined by ite.
+func (e *Engine) symLoadMergeable(st *State, p *PtrV) bool {
+	arr, ok := getPath(e.get(st, p.Obj), p.Path).(*ArrayV)
+	if !ok {
+		return false
+	}
+	n := p.SymN
+	if n > len(arr.E) {
+		n = len(arr.E)
+	}
+	c := e.tb.Fresh("probe", 0)
+	for i := 1; i < n; i++ {
+		if _, ok := e.iteValue(c, arr.E[0], arr.E[i]); !ok {
+			return false
+		}
+	}
+	return true
+}
